@@ -125,6 +125,12 @@ pub trait Property: Sync {
     fn exhaustive_note(&self, _tier: Tier) -> Option<String> {
         None
     }
+    /// Number of leading run indices that are deterministic enumerations. The PRNG stream of a run in the random
+    /// part is keyed by its offset *within the random part*, so adding an enumeration later does not reshuffle
+    /// every random run (which would silently change which seeded defects a given VERIF_SEED happens to meet).
+    fn enumerated_runs(&self, _tier: Tier) -> u64 {
+        0
+    }
     /// (rule, seconds): every property presupposes that the operation under test returns. If no run
     /// completes for that long while a worker is inside `execute` (generators are excluded), the run in
     /// flight is reported as a violation of that rule, with its trace as the replay file. Runs take
@@ -356,6 +362,16 @@ pub fn payload_message(p: &(dyn std::any::Any + Send)) -> String {
     panic_message(p)
 }
 
+/// The PRNG of run `run`: enumerated runs by index, random runs by their offset in the random part.
+pub fn rng_for<P: Property>(p: &P, seed: u64, tier: Tier, run: u64) -> Rng {
+    let g = p.enumerated_runs(tier);
+    if run < g {
+        Rng::for_run(seed, p.id(), run)
+    } else {
+        Rng::for_run(seed ^ 0x5EED_0F_7A4D_0A47, p.id(), run - g)
+    }
+}
+
 pub struct BatchResult {
     pub exit_code: i32,
 }
@@ -447,7 +463,7 @@ pub fn run_check<P: Property>(p: &P, st: &Settings) -> i32 {
                         let stuck = in_flight.iter().zip(executing.iter()).filter(|(_, e)| e.load(Ordering::Relaxed)).map(|(a, _)| a.load(Ordering::Relaxed)).min().unwrap_or(u64::MAX);
                         if let (Some((rule, secs)), true) = (p.stall_is_violation(), stuck != u64::MAX) {
                             // the trace is a pure function of (seed, run): write the replay file without executing it
-                            let mut rng = Rng::for_run(st.seed, id, stuck);
+                            let mut rng = rng_for(p, st.seed, st.tier, stuck);
                             let trace = p.generate(&mut rng, st.tier, stuck);
                             let dir = st.verif_dir.join("replays");
                             let _ = std::fs::create_dir_all(&dir);
@@ -487,7 +503,7 @@ pub fn run_check<P: Property>(p: &P, st: &Settings) -> i32 {
                                 // run in flight when the process dies can be identified
                                 let _ = std::fs::write(dir.join(format!("w{}", me)), format!("{}\n", run));
                             }
-                            let mut rng = Rng::for_run(st.seed, id, run);
+                            let mut rng = rng_for(p, st.seed, st.tier, run);
                             let r = catch(|| {
                                 let trace = p.generate(&mut rng, st.tier, run);
                                 executing[me].store(true, Ordering::Relaxed);
@@ -607,7 +623,7 @@ pub fn run_check<P: Property>(p: &P, st: &Settings) -> i32 {
         let mut chosen = None;
         let mut skipped = 0usize;
         for &(run, fi) in agg.unlisted_list.iter() {
-            let mut rng = Rng::for_run(st.seed, id, run);
+            let mut rng = rng_for(p, st.seed, st.tier, run);
             let trace = p.generate(&mut rng, st.tier, run);
             let mut obs = Obs::default();
             let fails = match catch(|| p.execute(&trace, &mut obs)) {
@@ -889,7 +905,7 @@ pub fn repo_head() -> String {
 /// If the code under test kills the process, the file is already there for the caller to report.
 pub fn exec_run<P: Property>(p: &P, st: &Settings, run: u64, path: &Path) -> i32 {
     let id = p.id();
-    let mut rng = Rng::for_run(st.seed, id, run);
+    let mut rng = rng_for(p, st.seed, st.tier, run);
     let trace = p.generate(&mut rng, st.tier, run);
     let doc = json!({"property": id, "rule": "R0-process-survives", "verif_seed": st.seed, "run": run, "tier": st.tier.name(),
         "trace": serde_json::to_value(&trace).unwrap_or(Value::Null),
@@ -926,7 +942,7 @@ pub fn interference<P: Property>(p: &P, st: &Settings, rounds: usize) -> i32 {
     let n = p.runs(st.tier);
     let k = 48u64.min(n);
     let idx: Vec<u64> = (0..k).map(|i| i * (n / k)).collect();
-    let traces: Vec<P::Trace> = idx.iter().map(|&r| p.generate(&mut Rng::for_run(st.seed, id, r), st.tier, r)).collect();
+    let traces: Vec<P::Trace> = idx.iter().map(|&r| p.generate(&mut rng_for(p, st.seed, st.tier, r), st.tier, r)).collect();
     match interference_on(p, &traces, st.workers.max(2), rounds) {
         None => {
             println!("interference {}: {} traces x {} threads x {} rounds: every result independent of the other threads", id, traces.len(), st.workers.max(2), rounds);
